@@ -1,9 +1,12 @@
 package props
 
 import (
+	"encoding/json"
 	"fmt"
+	"reflect"
 	"sort"
 	"strings"
+	"verif/harness/rng"
 
 	"verif/harness/oapi"
 	"verif/harness/orch"
@@ -189,11 +192,96 @@ func expSchemaShape(t synth.T) string {
 	return s
 }
 
+// c07Decorate puts usage-site decorations (deprecation, description; validators come from the profile) on
+// fields whose type is a named type; c07Strip returns a clone without any of them. The shared components of
+// the field TYPES must be the same JSON in both projects ("a type's schema is a function of its declaration alone").
+func c07Decorate(p *synth.Project, r interface {
+	Intn(int) int
+}) int {
+	n := 0
+	for si := range p.Structs {
+		for fi := range p.Structs[si].Fields {
+			f := &p.Structs[si].Fields[fi]
+			if f.Embedded || f.Type.Base().K != "named" {
+				continue
+			}
+			switch r.Intn(4) {
+			case 0:
+				f.Deprecated = true
+				n++
+			case 1:
+				f.Descr = "Usage-site text for " + f.GoName
+				n++
+			case 2:
+				f.Deprecated, f.Descr = true, "Deprecated here only"
+				n++
+			}
+			if f.Validate != "" {
+				n++
+			}
+		}
+	}
+	return n
+}
+
+func c07Strip(p *synth.Project, name string) (*synth.Project, map[string]bool) {
+	b, _ := json.Marshal(p)
+	var q synth.Project
+	_ = json.Unmarshal(b, &q)
+	q.ModPath = strings.TrimSuffix(q.ModPath, p.Name) + name
+	q.Name = name
+	touched := map[string]bool{}
+	for si := range q.Structs {
+		for fi := range q.Structs[si].Fields {
+			f := &q.Structs[si].Fields[fi]
+			if f.Embedded || f.Type.Base().K != "named" {
+				continue
+			}
+			if f.Deprecated || f.Descr != "" || f.Validate != "" {
+				f.Deprecated, f.Descr, f.Validate = false, "", ""
+				touched[q.Structs[si].Name] = true
+			}
+		}
+	}
+	for ci := range q.Controllers {
+		for mi := range q.Controllers[ci].Methods {
+			for pi := range q.Controllers[ci].Methods[mi].Params {
+				pr := &q.Controllers[ci].Methods[mi].Params[pi]
+				if pr.Type.Base().K == "named" && pr.Validate != "" && pr.Validate != "required" {
+					pr.Validate = ""
+				}
+			}
+		}
+	}
+	return &q, touched
+}
+
 func c07(c *orch.Ctx) (*report.Result, error) {
 	comps := 0
+	base := genFromProfile("C07", "models", nil)
+	twins := map[string]string{}              // stripped project -> decorated project
+	touchedBy := map[string]map[string]bool{} // stripped project -> structs whose own field list changed
+	var last *synth.Project
+	pairsCompared, componentsCompared := 0, 0
 	return runSpecProp(c, specProp{
 		id: "C07", nQuick: 70, nThorough: 600, floor: 0.6,
-		gen:    genFromProfile("C07", "models", nil),
+		gen: func(cx *orch.Ctx, i int) *synth.Project {
+			if i%4 == 3 && last != nil {
+				q, touched := c07Strip(last, fmt.Sprintf("p%04ds", i))
+				twins[q.Name] = last.Name
+				touchedBy[q.Name] = touched
+				last = nil
+				return q
+			}
+			p := base(cx, i)
+			if i%4 == 2 {
+				if c07Decorate(p, rng.New(cx.Seed, "C07-decorate", fmt.Sprint(i))) > 0 {
+					p.SetFeature("usage-site-decorations")
+					last = p
+				}
+			}
+			return p
+		},
 		rule:   "projects drawn from the 'models' profile (3-8 structs over up to 4 packages: acyclic and self/mutually recursive references via pointers/slices, embedded structs, enums of 8 basic kinds incl. '='-style, typedef/assigned aliases, nested slices, string-keyed maps, time.Time, []byte, any, unexported and json:\"-\" fields, omitempty, decoy constants, unreachable decoy types, usage-site validators on enum-typed fields); components.schemas of both spec versions compared with the reachability closure and the per-declaration schema derived from the descriptor (DESIGN A.4/A.6). distinct = distinct type-graph shapes (per struct the multiset of field schema shapes and visibility flags; #enums; #aliases)",
 		assume: []string{"a type reachable only from hidden routes may or may not have a component (not judged); Rfc7807Error is required when a route returns plain error and otherwise not judged; enum values are compared by printed form (their JSON typing is C08's subject)"},
 		check: func(res *report.Result, sr *SpecRun, dist *report.Distincter) {
@@ -212,7 +300,41 @@ func c07(c *orch.Ctx) (*report.Result, error) {
 				res.Samples = append(res.Samples, map[string]any{"project": sr.P.Name, "expected_struct_components": decls, "features": sr.P.FeatureList()})
 			}
 		},
-		finish: func(res *report.Result, runs []*SpecRun) { res.Extra("components_observed", comps) },
+		finish: func(res *report.Result, runs []*SpecRun) {
+			res.Extra("components_observed", comps)
+			byName := map[string]*SpecRun{}
+			for _, sr := range runs {
+				byName[sr.P.Name] = sr
+			}
+			for stripped, decorated := range twins {
+				a, b := byName[decorated], byName[stripped]
+				if a == nil || b == nil {
+					continue
+				}
+				for _, v := range specVersions {
+					if a.Ver[v] == nil || b.Ver[v] == nil || a.Ver[v].Doc == nil || b.Ver[v].Doc == nil || !a.Ver[v].Accepted || !b.Ver[v].Accepted {
+						continue
+					}
+					pairsCompared++
+					sa, sb := a.Ver[v].Doc.Schemas(), b.Ver[v].Doc.Schemas()
+					for name, want := range sb {
+						got, ok := sa[name]
+						if !ok || touchedBy[stripped][name] {
+							continue
+						}
+						componentsCompared++
+						if !reflect.DeepEqual(got, want) {
+							gj, _ := json.Marshal(got)
+							wj, _ := json.Marshal(want)
+							res.AddViolation("component-changes-with-usage-site-decoration", map[string]string{"version": v}, fmt.Sprintf("[%s vs %s %s] component %s is %s when fields of that type carry @Deprecated / description / validators elsewhere, and %s when they do not", decorated, stripped, v, name, gj, wj), caseOf(a.P, map[string]any{"version": v, "type": name}))
+							break
+						}
+					}
+				}
+			}
+			res.Extra("usage_site_pairs_compared", pairsCompared)
+			res.Extra("components_compared_across_pairs", componentsCompared)
+		},
 	})
 }
 
